@@ -22,7 +22,7 @@ ASSUMPTIONS = [
 
 E1 = ["a.md", "b.MD", "c.txt", "d/e.md", "d/f.txt", "d/g/h.md"]
 E2 = ["x*.md", "q?.md", "xy.md", "e/"]
-ARGS = ["a.md", "./a.md", "c.txt", "d", "d/", "./d", "d/e.md", "*.md", "d/*", "*", "n*.md", "nope.md", "d/g", "x*.md"]
+ARGS = ["a.md", "./a.md", "c.txt", "d", "d/", "./d", "d/e.md", "*.md", "d/*", "*", "n*.md", "nope.md", "d/g", "x*.md", "**/*.md", "d/**"]
 AE = [None, ".txt", ".md,.txt"]
 
 
@@ -133,22 +133,35 @@ def model(tree, args, recurse, ae):
     selected = set()
     for a in args:
         if "*" in a or "?" in a:
-            dpart, _, pat = a.rpartition("/")
-            d = _norm(dpart) if dpart else ""
-            if d not in dirs:
+            # component-wise, non-recursive expansion (the guide: glob.glob without the recursive
+            # flag, so '**' is just '*'); names starting with '.' are not matched by wildcards
+            comps = [c for c in a.split("/") if c not in ("", ".")]
+            cur = [""]
+            for i, comp in enumerate(comps):
+                nxt = []
+                for d in cur:
+                    children = set()
+                    for f in files:
+                        if "/".join(f.split("/")[:-1]) == d:
+                            children.add(f.split("/")[-1])
+                    for x in dirs:
+                        if x and "/".join(x.split("/")[:-1]) == d:
+                            children.add(x.split("/")[-1])
+                    if "*" in comp or "?" in comp:
+                        names = [n for n in children if not n.startswith(".") and fnmatch.fnmatchcase(n, comp.replace("**", "*"))]
+                    else:
+                        names = [comp] if comp in children else []
+                    for n in names:
+                        p = (d + "/" + n) if d else n
+                        if i < len(comps) - 1:
+                            if p in dirs:
+                                nxt.append(p)
+                        else:
+                            nxt.append(p)
+                cur = nxt
+            if not cur:
                 return ("error", f"glob {a!r} matches nothing")
-            names = set()
-            for f in files:
-                if "/".join(f.split("/")[:-1]) == d:
-                    names.add(f.split("/")[-1])
-            for x in dirs:
-                if x and "/".join(x.split("/")[:-1]) == d:
-                    names.add(x.split("/")[-1])
-            hits = [n for n in names if not n.startswith(".") and fnmatch.fnmatchcase(n, pat)]
-            if not hits:
-                return ("error", f"glob {a!r} matches nothing")
-            for n in hits:
-                p = (d + "/" + n) if d else n
+            for p in cur:
                 if p in dirs:
                     selected |= in_dir(p, recurse)
                 elif eligible(p):
